@@ -323,6 +323,10 @@ func parseContracts(path string, unit string) (map[string]*Contract, error) {
 				return nil, fmt.Errorf("%s:%d: use <file>:<unit>", path, ln)
 			}
 			other := filepath.Join(repoDir(), parts[0])
+			if strings.HasPrefix(parts[0], "@verif/") {
+				// assumed contracts of functions outside the repository live in /verif/specs (names fully qualified there)
+				other = filepath.Join(verifDir(), strings.TrimPrefix(parts[0], "@verif/"))
+			}
 			imp, err := parseContracts(other, parts[1])
 			if err != nil {
 				return nil, fmt.Errorf("%s:%d: use: %v", path, ln, err)
